@@ -148,7 +148,7 @@ def build(run_lines, scenario, variant, sitemap, workdir):
         for op in th:
             if op.get("k"):
                 keys.add(op["k"])
-    if any(o["op"] in ("Range", "Size") or o.get("op", "").startswith("Bulk") for th in scenario["threads"] for o in th):
+    if any((o["op"] == "Range" and o.get("fn", "all") != "all") or o.get("op", "").startswith("Bulk") for th in scenario["threads"] for o in th):
         raise ValueError("scenario uses calls outside the CLHT conformance menu")
     keys = sorted(keys)
     hb, hh = {}, {}
@@ -198,7 +198,11 @@ def build(run_lines, scenario, variant, sitemap, workdir):
     out = []
     started = False
     unknown = []
+    visits = {}
     for e in evs:
+        if e["ev"] == "visit" and started:
+            visits.setdefault(e["t"], []).append({"k": e["k"], "v": e["v"]})
+            continue
         if e["ev"] == "phase":
             started = True
             continue
@@ -211,9 +215,14 @@ def build(run_lines, scenario, variant, sitemap, workdir):
                 continue
             if lab is None:
                 continue
-            out.append({"ev": "step", "t": e["t"], "labels": lab, "site": e["fn"]})
+            out.append({"ev": "step", "t": e["t"], "labels": lab, "site": e["fn"], "op": "", "k": "", "rv": "", "ok": False, "n": 0, "vis": []})
         elif e["ev"] in ("call", "ret") and e["t"] > 0:
-            out.append({"ev": e["ev"], "t": e["t"], "op": e["op"], "k": e["k"], "rv": e["rv"], "ok": e["ok"], "n": e["n"], "labels": []})
+            rec = {"ev": e["ev"], "t": e["t"], "op": e["op"], "k": e["k"], "rv": e["rv"], "ok": e["ok"], "n": e["n"], "labels": [], "vis": []}
+            if e["ev"] == "call" and e["op"] == "Range":
+                visits[e["t"]] = []
+            if e["ev"] == "ret" and e["op"] == "Range":
+                rec["vis"] = visits.get(e["t"], [])
+            out.append(rec)
         elif e["ev"] == "quiesce":
             out.append({"ev": "final", "t": 0, "x": e["x"], "n": e["n"], "vis": e["vis"], "labels": []})
             break
